@@ -209,7 +209,12 @@ DL2 == VO(<< <<"a", VI(0)>>, <<"b", VS("q")>>, <<"i", VI(0)>>, <<"c", VB(TRUE)>>
 LOk == {Id("a"), Mem(Id("o"), "p"), Mem(Mem(Id("o"), "q"), "r"), Idx(Id("l"), Lit("0")), Mem(Idx(Id("l"), Id("i")), "v"),
         Idx(Id("o"), Id("b")), Idx(Id("o"), Lit("'p'")), Cond(Id("c"), Mem(Id("o"), "p"), Mem(Id("o2"), "p")),
         Mem(Cond(Id("c"), Id("o"), Id("o2")), "p"), Idx(Mem(Idx(Id("l"), Lit("0")), "sub"), Id("i")),
-        Cond(Id("c"), Id("a"), Bin("+", Id("a"), Lit("1"))), Cond(Id("c"), Lit("1"), Mem(Id("o"), "p"))}
+        Cond(Id("c"), Id("a"), Bin("+", Id("a"), Lit("1"))), Cond(Id("c"), Lit("1"), Mem(Id("o"), "p")),
+        (* a member chain continuing a conditional nested in a conditional: the tail belongs to every branch *)
+        Mem(Cond(Id("c"), Cond(Id("a"), Id("o"), Id("o2")), Id("o2")), "p"),
+        Mem(Cond(Id("c"), Id("o"), Cond(Id("a"), Id("o2"), Id("o"))), "p"),
+        Mem(Mem(Cond(Id("c"), Cond(Id("a"), Id("o"), Id("o")), Id("o")), "q"), "r"),
+        Mem(Cond(Id("c"), Cond(Id("a"), Id("o"), Lit("1")), Id("o2")), "p")}
 LBad == {Bin("+", Id("a"), Lit("1")), Un("!", Id("a")), Lit("'x'"), Lit("1"), Call(Id("f"), <<Id("a")>>),
          Idx(Arr(<<Item(Id("a"))>>), Lit("0")), Mem(Obj(<<Named("p", Id("a"))>>), "p"), Bin("||", Id("a"), Id("b")),
          Arr(<<Item(Id("a"))>>), Obj(<<Named("p", Id("a"))>>)}
@@ -218,7 +223,8 @@ WxsIn  == [n |-> "m", members |-> << <<"f", VF("f2")>>, <<"g", VO(<< <<"h", VF("
 WxsExt == [n |-> "x", src |-> "s", members |-> << <<"f", VF("f2")>>, <<"g", VO(<< <<"h", VF("f1")>> >>)>> >>]
 SExprs == {Mem(Id("m"), "f"), Mem(Mem(Id("m"), "g"), "h"), Mem(Id("x"), "f"), Mem(Mem(Id("x"), "g"), "h"), Id("m"),
            Cond(Id("c"), Mem(Id("m"), "f"), Mem(Id("x"), "f")), Cond(Id("c"), Mem(Id("m"), "f"), Id("a")),
-           Idx(Id("m"), Id("b")), Call(Mem(Id("m"), "f"), <<Id("a")>>)}
+           Idx(Id("m"), Id("b")), Call(Mem(Id("m"), "f"), <<Id("a")>>),
+           Mem(Cond(Id("c"), Id("m"), Id("x")), "f"), Mem(Mem(Cond(Id("c"), Id("m"), Id("x")), "g"), "h")}
 FileS(root) == << [path |-> "a", imports |-> <<>>, wxs |-> <<WxsIn, WxsExt>>, defs |-> <<>>, root |-> root] >>
 F7 ==    {FileS(<<Elem("v", <<Attr("model:", "v", EV(e))>>, <<>>)>>) : e \in LAll \cup SExprs}
     \cup {FileS(<<Elem("v", <<Attr(f, "tap", EV(e))>>, <<>>)>>) : f \in {"bind", "catch", "capture-bind"}, e \in SExprs \cup LOk}
@@ -228,7 +234,9 @@ F7 ==    {FileS(<<Elem("v", <<Attr("model:", "v", EV(e))>>, <<>>)>>) : e \in LAl
     \cup {FileS(<<SlotEl(None, <<Attr("plain", n, EV(e))>>)>>) : n \in {"bindtap", "p"}, e \in {Mem(Id("m"), "f"), Mem(Id("x"), "f"), Id("a")}}
     \cup {FileS(<<For(EV(l), "item", "index", "", <<Elem("v", <<Attr("model:", "v", EV(e))>>, <<>>)>>)>>) :
              l \in {Id("l"), Id("ol"), Mem(Id("o"), "q"), Arr(<<Item(Id("a")), Item(Id("b"))>>), Cond(Id("c"), Id("l"), Id("ol")),
-                    Mem(Idx(Id("l"), Lit("0")), "sub"), Bin("||", Id("l"), Id("ol")), Call(Id("f"), <<Id("l")>>)},
+                    Mem(Idx(Id("l"), Lit("0")), "sub"), Bin("||", Id("l"), Id("ol")), Call(Id("f"), <<Id("l")>>),
+                    Mem(Cond(Id("c"), Idx(Id("l"), Lit("0")), Idx(Id("l"), Lit("0"))), "sub"),
+                    Mem(Cond(Id("c"), Cond(Id("a"), Idx(Id("l"), Lit("0")), Idx(Id("l"), Lit("0"))), Idx(Id("l"), Lit("0"))), "sub")},
              e \in {Id("item"), Mem(Id("item"), "v"), Id("index"), Idx(Id("item"), Lit("'v'")), Id("a"), Bin("+", Id("item"), Lit("1"))}}
     \cup {FileS(<<For(EV(Id("l")), "x", "y", "", <<For(EV(Mem(Id("x"), "sub")), "item", "index", "",
                     <<Elem("v", <<Attr("model:", "v", EV(e))>>, <<>>)>>)>>)>>) :
